@@ -289,6 +289,41 @@ def validate_batch(traces, proj, out_dir, tag, timeout=1500):
     return rejected, pv, res, projected
 
 
+MON_CFG_CONSTS = {k: v for k, v in TRACE_CFG_CONSTS.items() if k != "PlanLib"}
+
+
+def monitor_batch(traces, out_dir, tag, timeout=1500):
+    """REMon: the property monitors alone, on every event of every trace (no conformance)"""
+    tf = out_dir / f"{tag}.ndjson"
+    with open(tf, "w") as fh:
+        for t in traces:
+            fh.write(json.dumps(t) + "\n")
+    cfg = write_cfg(out_dir / f"{tag}.cfg", MON_CFG_CONSTS, spec="MonTraceSpec", action_constraints=["MonReport"])
+    res = run_tlc("MC_mon", cfg, spec_dir=SD, env={"TRACE_FILE": str(tf)}, workers=1, tag=tag, timeout=timeout)
+    if not res.ok:
+        raise RuntimeError(f"REMon stopped: {res.kind} {res.violated}\n{res.stdout[-1500:]}")
+    return parse_propviol(res.stdout), res
+
+
+def monitor_many(traces, out_dir, tag, batch=300, par=None):
+    par = par or int(os.environ.get("VERIF_TLC_PAR", 6))
+    chunks = [(i, traces[i:i + batch]) for i in range(0, len(traces), batch)]
+    pv, stats = [], {"generated": 0, "distinct": 0, "wall": 0.0}
+
+    def work(ch):
+        off, ts = ch
+        return off, monitor_batch(ts, out_dir, f"{tag}_{off}")
+
+    with cf.ThreadPoolExecutor(par) as ex:
+        for off, (p, res) in ex.map(work, chunks):
+            for tid, tags, reqs in p:
+                pv.append((off + tid - 1, tags, reqs))
+            stats["generated"] += res.generated
+            stats["distinct"] += res.distinct
+            stats["wall"] += res.wall_s
+    return pv, stats
+
+
 def validate_many(traces, proj, out_dir, tag, batch=150, par=None):
     """split into batches validated by parallel TLC runs; returns rejected {global idx: upto}, propviol [(global idx, tags, reqs)]"""
     par = par or int(os.environ.get("VERIF_TLC_PAR", 6))
@@ -445,6 +480,16 @@ def get_corpus(tier):
     return cached(f"corpus-{tier}", lambda: build_corpus(tier))
 
 
+def get_monitor(tier):
+    def build():
+        c = get_corpus(tier)
+        d = OUT / "corpus" / f"mon-{tier}"
+        d.mkdir(parents=True, exist_ok=True)
+        pv, stats = monitor_many([t["events"] for t in c["traces"]], d, "m")
+        return {"pv": pv, "stats": stats}
+    return cached(f"mon-{tier}", build)
+
+
 def get_validation(tier, proj):
     def build():
         c = get_corpus(tier)
@@ -500,3 +545,115 @@ SuspPostDef == <<{", ".join(tla_msg(m) for m in post)}>>
     cfg = write_cfg(sd / f"{name}.cfg", consts, spec="MCSpec", action_constraints=["MCReport"])
     res = run_tlc(name, cfg, spec_dir=sd, workers=workers or int(os.environ.get("VERIF_TLC_WORKERS", 8)), tag=name, timeout=timeout)
     return res, parse_propviol(res.stdout)
+
+
+# ---------------------------------------------------------------------------------------------------------------
+# per-property verdicts
+# ---------------------------------------------------------------------------------------------------------------
+def tag_pred(prop):
+    """which PROPVIOL tags belong to a property"""
+    if prop == "C40":
+        return lambda t: t.startswith("C40:") or (t.startswith("C05:") and t.endswith(":interruptions"))
+    if prop == "C41":
+        return lambda t: t.startswith("C41:") or (t.startswith("C05:") and t.endswith(":monitor"))
+    return lambda t: t.startswith(prop + ":")
+
+
+MC_JOBS = {
+    # (plan, kwargs) per tier; kept small in quick (the machine-checked bound is stated in the evidence)
+    "quick": [("simple", dict(max_req=1)), ("fin", dict(max_req=1)), ("two", dict(max_req=1, req_kinds=["pause", "suspend", "abort"]))],
+    "thorough": [("simple", dict(max_req=2)), ("fin", dict(max_req=2)), ("two", dict(max_req=2, req_kinds=["pause", "suspend", "abort", "defer"])),
+                 ("move", dict(max_req=1, max_faults=1, fault_kinds=["raise", "fail", "later"])),
+                 ("mon", dict(max_req=1, max_updates=2)), ("multi", dict(max_req=1)), ("defer", dict(max_req=2, req_kinds=["defer", "pause", "abort"])),
+                 ("norew", dict(max_req=2, req_kinds=["pause", "suspend"])), ("err", dict(max_req=1)), ("openonly", dict(max_req=2))],
+}
+
+
+def get_mc(tier):
+    """model-check every job of the tier once (cached, shared by all RE-core properties)"""
+    def build():
+        from harness.core import Ctx
+        ctx = Ctx("_mc", tier, 0)
+        out = []
+        for plan, kw in MC_JOBS[tier]:
+            res, pv = mc_run(ctx, plan, tag=tier, **kw)
+            sigs = {}
+            for _tid, tags, reqs in pv:
+                for tag in tags:
+                    sigs.setdefault(signature(tag, reqs), 0)
+                    sigs[signature(tag, reqs)] += 1
+            out.append({"plan": plan, "kw": kw, "generated": res.generated, "distinct": res.distinct, "depth": res.depth,
+                        "wall": res.wall_s, "sigs": sigs})
+        return out
+    return cached(f"mc-{tier}", build)
+
+
+def sig_class(sig):
+    """abstract a signature to (tag, kinds with tail markers) for matching model findings against trace findings"""
+    tag, _, rest = sig.partition("|")
+    kinds = []
+    for part in rest.split(","):
+        k = part.split("@")[0]
+        kinds.append(k + ("@tail" if "@tail/" in part else ""))
+    return tag + "|" + ",".join(kinds)
+
+
+def check_property(ctx, prop, proj="full", extra_rule=""):
+    pred = tag_pred(prop)
+    tier = ctx.tier
+    # 1. model checking (bounded exhaustive) -- model-level findings
+    mc = get_mc(tier)
+    model_sigs = {}
+    for job in mc:
+        ctx.cov["states"] += job["distinct"]
+        ctx.cov["transitions"] += job["generated"]
+        ctx.note(f"REMC {job['plan']} {job['kw']}: {job['generated']} generated / {job['distinct']} distinct, depth {job['depth']}, {job['wall']:.0f}s")
+        for s, n in job["sigs"].items():
+            if pred(s.split("|")[0]):
+                model_sigs.setdefault(sig_class(s), s)
+    # 2. implementation traces (every scheduling point of the corpus plans):
+    #    (a) conformance: TLC checks each trace is a behaviour of RE.tla (RETrace) -- binds the specification to the code;
+    #    (b) the property monitors of REProps are evaluated by TLC on every event of every trace (REMon) -- the verdict.
+    corpus = get_corpus(tier)
+    traces = corpus["traces"]
+    val = get_validation(tier, "full")
+    rejected = {int(k): v for k, v in val["rejected"].items()}
+    mon = get_monitor(tier)
+    ctx.cov["states"] += val["stats"]["distinct"] + mon["stats"]["distinct"]
+    ctx.cov["transitions"] += val["stats"]["generated"] + mon["stats"]["generated"]
+    seen_classes = set()
+    for i, t in enumerate(traces):
+        ctx.case(t["id"], "|" in t["id"])
+    ctx.traces(len(traces) - len(rejected))
+    ctx.cov["traces_not_conforming_to_spec"] = len(rejected)
+    if rejected:
+        ex = []
+        for i, upto in sorted(rejected.items())[:5]:
+            t = traces[i]
+            ex.append(f"{t['id']} (accepted {upto} of {len(t['events'])} events, next {t['events'][upto][:4] if upto < len(t['events']) else 'END'})")
+        ctx.note(f"SPEC-DRIFT: {len(rejected)} implementation traces are not behaviours of RE.tla (the implementation or the specification "
+                 f"changed); property verdicts below come from the monitors evaluated on the recorded events. Examples: {ex}")
+        print(f"NOTE: {len(rejected)} of {len(traces)} implementation traces are not accepted by RE.tla (spec drift), e.g. {ex[0]}")
+    for i, tags, reqs in mon["pv"]:
+        for tag in tags:
+            if pred(tag):
+                s = signature(tag, reqs)
+                seen_classes.add(sig_class(s))
+                t = traces[i]
+                ctx.violation(s, f"{tag} on implementation trace {t['id']} (outcomes {t['outcomes']})",
+                              {"scenario": t["id"], "tag": tag, "requests": reqs})
+    for t in traces[:400]:
+        if "|" in t["id"] and len(ctx.cov["samples"]) < 3:
+            ctx.sample({"scenario": t["id"], "outcomes": t["outcomes"], "first_events": t["events"][:8]})
+    unconfirmed = sorted(c for c in model_sigs if c not in seen_classes)
+    if unconfirmed:
+        ctx.note(f"model-level findings of REMC not (yet) reproduced by an implementation trace of this tier: {unconfirmed[:12]}")
+    ctx.cov["model_findings"] = sorted(model_sigs)[:40]
+    ctx.cov["exhaustive"] = True
+    ctx.rule = ("implementation executions = every scheduling point of the corpus plans (plan programs shared with REMC + built-in plans) x "
+                "request kind x caller decision (+ pairs, device faults, monitor updates), each recorded through public hooks and validated "
+                "by TLC against RE.tla (RETrace) with the property monitors of REProps evaluated on every step; non-trivial = has at least one "
+                "request/fault; distinct by scenario id. " + extra_rule)
+    ctx.assumptions += ["single-step virtual-time loop explores callback-boundary interleavings of one request thread with the run task",
+                        "fake devices implement bluesky.protocols synchronously (awaits inside pause/cleanup sequences do not suspend)",
+                        "TLC 1.8.0, CPython 3.12 asyncio internals (_PyTask, BaseEventLoop._ready/_scheduled)"]
